@@ -4,7 +4,7 @@
 set -u
 OUT=$1; ID=$2; DEMO=$3; DST=$4; PKG=$5; RUN=$6; shift 6
 export GOFLAGS=-mod=mod GOPROXY=off GOSUMDB=off GOTOOLCHAIN=local
-S=/tmp/scr
+S=${SCR:-/tmp/scr}
 cd $S && git checkout -q -- . && git clean -fdq
 cp "$OUT/$DEMO" "$S/$DST"
 echo "--- demo without the change (expect PASS)"
@@ -17,9 +17,9 @@ echo "--- demo with the change (expect FAIL)"
 go1.26.8 test -vet=off -count=1 -run "$RUN" $PKG 2>&1 | tail -4
 rm -f "$S/$DST"
 mkdir -p /verif/seeded/$ID
-cp "$OUT"/* /verif/seeded/$ID/ 2>/dev/null
+cp -n "$OUT"/* /verif/seeded/$ID/ 2>/dev/null   # never overwrite a meta.json that already carries the confirmation
 cd /verif
 for C in "$@"; do
   echo "--- check $C against the change"
-  VERIF_REPO=$S VERIF_BIN=/tmp/scr.test VERIF_BUDGET_S=${SEED_BUDGET:-45} VERIF_WORKERS=8 timeout 1200 ./check $C quick 2>&1 | grep -v "^KNOWN" | tail -3 | cut -c1-300
+  VERIF_REPO=$S VERIF_BIN=$S.test VERIF_BUDGET_S=${SEED_BUDGET:-45} VERIF_WORKERS=8 timeout 1200 ./check $C quick 2>&1 | grep -v "^KNOWN" | tail -3 | cut -c1-300
 done
